@@ -168,6 +168,8 @@ func (e *Engine) evalDesignator(sc *Scope, ex ast.Expr, what string) designator 
 			return designator{ghost: "inpos"}
 		case "INLEN":
 			return designator{ghost: "inlen"}
+		case "TICKS":
+			return designator{ghost: "ticks"}
 		}
 	case *ast.CallExpr:
 		if id, ok := x.Fun.(*ast.Ident); ok && (id.Name == "outreg" || id.Name == "inreg") && len(x.Args) == 2 {
@@ -1038,7 +1040,7 @@ func (s *Scope) evalCall(x *ast.CallExpr) SV {
 		}
 		i := s.toInt(s.eval(args[0]), 64, false)
 		return SV{k: kInt, t: e.mc.Read8(s.gh.mm[name], i)}
-	case "outlen", "inpos", "inlen":
+	case "outlen", "inpos", "inlen", "ticks":
 		need(0)
 		if s.gh == nil {
 			s.fail("ghost state not available here")
